@@ -78,9 +78,9 @@ def _apply(t, o, env, strict):
             raise IllFormed(f"{o}: common columns {common} missing")
         triv = o.binary.predicate.as_trivial() is True
         pred = None if triv else (lambda v: exprsem.z3_of_lib(o.binary.predicate, v))
-        # columns exposed by both and not common: unspecified - refuse to decide
+        # columns exposed by both operands and not joined on: the join is not well-formed on this target
         if (t.cols & y.cols) - set(common):
-            raise Skip("join with shared non-common columns: provenance unspecified")
+            raise IllFormed(f"{o}: operands share columns {sorted((t.cols & y.cols) - set(common))} that are not join columns")
         return relmodel.join(y, t, common, pred) if o.fixed_is_lhs else relmodel.join(t, y, common, pred)
     return apply_lib_op(t, o, strict=strict)
 
@@ -230,13 +230,22 @@ def concrete_check(shape, rows, yrows, bind):
         from lsst.daf.relation import Calculation, Projection, PartialJoin
         if isinstance(o, Calculation) and o.tag.qualified_name in colset:
             raise IllFormed(f"{o}: tag already present")
+        if isinstance(o, PartialJoin):
+            fc0 = {c.qualified_name for c in o.fixed.columns}
+            cc0 = {c.qualified_name for c in o.binary.common_columns}
+            if (colset & fc0) - cc0:
+                raise IllFormed(f"{o}: operands share columns {sorted((colset & fc0) - cc0)} that are not join columns")
         new = _py_apply(rs, o, yrows)
         if isinstance(o, Calculation):
             colset = colset | {o.tag.qualified_name}
         elif isinstance(o, Projection):
             colset = {c.qualified_name for c in o.columns}
         elif isinstance(o, PartialJoin):
-            colset = colset | {c.qualified_name for c in o.fixed.columns}
+            fc = {c.qualified_name for c in o.fixed.columns}
+            cc = {c.qualified_name for c in o.binary.common_columns}
+            if (colset & fc) - cc:
+                raise IllFormed(f"{o}: operands share columns {sorted((colset & fc) - cc)} that are not join columns")
+            colset = colset | fc
         return new, colset
 
     cols0 = set(COLS)
